@@ -45,6 +45,8 @@ def run(tier):
         nmods = 0
         for t in T:
             k, n = t.kind_and_name()
+            if k == "mod" and attrs.get(n, []) is None:
+                continue  # `//! twin: skip`
             if k != "mod" or t.body_group() is None:
                 continue
             r = rmods.get(n)
